@@ -7,6 +7,8 @@ package main
 
 import (
 	"time"
+
+	hg "github.com/mosaicnetworks/babble/src/hashgraph"
 )
 
 func init() { modes["live"] = runLive }
@@ -36,12 +38,17 @@ func runLive(o *Opts) *Summary {
 		if t%3 == 1 {
 			cn.mangle = 0.2
 		}
-		cn.EmitInit(map[string]interface{}{"sched": "live-" + sn, "seed": o.Seed*1000 + int64(t)})
+		cn.EmitInit(map[string]interface{}{"sched": "live-" + sn, "seed": o.Seed*1000 + int64(t), "nc": n + 1})
 		sc := makeSched(w, sn, n, o.Steps)
+		emptyOnly := t%4 == 2
 		for k := 0; k < o.Steps; k++ {
 			if w.rng.Float64() < o.TxP {
 				tgt := cn.nodes[w.rng.Intn(len(cn.nodes))]
 				id, payload := w.RandTx()
+				if emptyOnly || (t%4 == 0 && w.rng.Intn(3) == 0) {
+					// zero-length transactions are transactions too
+					id, payload = w.NewTx([]byte{})
+				}
 				cn.Submit(tgt, id, payload)
 			}
 			if n == 1 {
@@ -56,6 +63,9 @@ func runLive(o *Opts) *Summary {
 		f := 0
 		if n >= 4 {
 			f = w.rng.Intn((n-1)/3 + 1)
+			if t%2 == 1 {
+				f = 0 // the repeated-join scenario below adds a silent validator of its own
+			}
 		}
 		live := []*CNode{}
 		liveNums := []int{}
@@ -74,7 +84,27 @@ func runLive(o *Opts) *Summary {
 		for q := 0; q < 2; q++ {
 			tgt := live[w.rng.Intn(len(live))]
 			id, payload := w.RandTx()
+			if emptyOnly {
+				id, payload = w.NewTx([]byte{})
+			}
 			cn.Submit(tgt, id, payload)
+		}
+		// a join request that its sender repeated (slow consensus, JoinTimeout): the
+		// same signed request reaches one validator four times; only the last
+		// handler is still waiting for the answer.  The joiner itself stays silent.
+		retried := false
+		if f == 0 && n >= 4 && t%2 == 1 {
+			retried = true
+			jp := w.AddPart()
+			itx := hg.NewInternalTransactionJoin(*jp.Peer)
+			itx.Sign(jp.Key)
+			holder := live[w.rng.Intn(len(live))]
+			for q := 0; q < 4; q++ {
+				holder.core.AddInternalTransaction(itx)
+				inf := w.SetItxPolicy(&itx, true)
+				w.Emit(holder.num, "AddItx", map[string]interface{}{"itx": inf, "for": jp.Num, "kind": "join", "retry": q},
+					map[string]interface{}{"itxpool": len(holder.core.InternalTransactionPool())})
+			}
 		}
 		idle := func() bool {
 			for _, nd := range live {
@@ -92,28 +122,52 @@ func runLive(o *Opts) *Summary {
 		// any fixed bound - truncation belongs to the adversarial prefix, as the
 		// property states it.)
 		limit := 1000
-		for cycles < liveBound+1 && !idle() {
+		stuck := false
+		for cycles < liveBound+1 && !idle() && !stuck {
 			cycles++
-			if n == 1 {
-				cn.MonologueStep(live[0], false)
-				continue
-			}
-			for _, a := range live {
-				for _, b := range live {
-					if a != b {
-						cn.SyncStep(a, b, limit, false)
+			done := make(chan struct{})
+			go func() {
+				defer close(done)
+				if n == 1 {
+					cn.MonologueStep(live[0], false)
+					return
+				}
+				for _, a := range live {
+					for _, b := range live {
+						if a != b {
+							cn.SyncStep(a, b, limit, false)
+						}
 					}
 				}
+			}()
+			select {
+			case <-done:
+			case <-time.After(60 * time.Second):
+				// a validator never came back from a step (blocked inside it)
+				stuck = true
 			}
 		}
 		busy := []bool{}
 		loaded := []int{}
-		for _, nd := range live {
-			busy = append(busy, nd.core.Busy())
-			loaded = append(loaded, nd.core.Hg().PendingLoadedEvents)
+		if stuck {
+			for range live {
+				busy = append(busy, true)
+				loaded = append(loaded, -1)
+			}
+		} else {
+			for _, nd := range live {
+				busy = append(busy, nd.core.Busy())
+				loaded = append(loaded, nd.core.Hg().PendingLoadedEvents)
+			}
 		}
-		w.Emit(0, "LiveCheck", map[string]interface{}{"live": liveNums, "cycles": cycles, "bound": liveBound, "limit": limit},
+		w.Emit(0, "LiveCheck", map[string]interface{}{"live": liveNums, "cycles": cycles, "bound": liveBound, "limit": limit, "retried_join": retried, "stuck": stuck},
 			map[string]interface{}{"busy": busy, "loaded": loaded})
+		if stuck {
+			// the blocked goroutine still owns the cores: leave them alone
+			s.Steps += cn.steps
+			s.Errors++
+			continue
+		}
 		if cycles > maxCycles {
 			maxCycles = cycles
 		}
